@@ -198,3 +198,22 @@ Definition e_P18_edit (v : uval) : uval :=
 Definition e_encode_bitmap (v : uval) : uval := vbytes (encode_bitmap (map getbools (getL v))).
 Definition e_decode_bitmap (v : uval) : uval := vlist vbools (decode_bitmap (getbytes v)).
 Definition e_spec_bitmap (v : uval) : uval := vbytes (spec_bitmap (map getbools (getL v))).
+
+(* ---- C15 ---- *)
+From PV Require Import Model.Versions Spec.C15.
+Definition getpairs (v : uval) : list (N * N) := map (fun p => (getN (arg 0 p), getN (arg 1 p))) (getL v).
+(* [unsupported; history] -> [outputs per announcement; aborted flags] *)
+Fixpoint announce_flags (unsup : list N) (m : list (N * N)) (h : list (list (N * N))) : list bool :=
+  match h with
+  | [] => []
+  | a :: t => let '(m1, _, ab) := announce unsup m a in ab :: announce_flags unsup m1 t
+  end.
+Definition e_announce_all (v : uval) : uval :=
+  let unsup := getbytes (arg 0 v) in
+  let h := map getpairs (getL (arg 1 v)) in
+  VL [vlist vbytes (fst (announce_all unsup [] h)); vlist vbool (announce_flags unsup [] h)].
+(* [unsupported; history; observed outputs per announcement] *)
+Definition e_P15 (v : uval) : uval :=
+  let h := map getpairs (getL (arg 1 v)) in
+  vbool (forallb wf_ann h && P15 (getbytes (arg 0 v)) h (map getbytes (getL (arg 2 v)))).
+Definition e_wf_ann (v : uval) : uval := vbool (wf_ann (getpairs v)).
